@@ -29,7 +29,7 @@ RULE = ("12 generator slots per round (250 rounds quick, 1200 thorough): route-t
         "removeoverlaps-twice (all centres distinct), removeoverlaps-coincident (groups of rectangles sharing a centre), route-translate, "
         "route-symmetry polyline, route-symmetry orthogonal (all 7 non-trivial symmetries per scene), vpsc-translate, vpsc-permute "
         "(route-translate on orthogonal scenes carries the tag route-translate-orth), and route-symmetry-dirs: orthogonal scenes with DIRECTION-RESTRICTED ends, ConnDirFlags transformed with the frame, cost and axis-parallelism compared over the 8 frames (two rounds in three strict: one free end at / 1-2 units beyond the extreme min/max x or y of the whole scene looking outward only, or one pin at the midpoint of the shape side that is the scene boundary, buffer 0; one round in three tag route-symmetry-dirs-any: arbitrary restrictions, several pins, counted only). "
-        "After these and the class cmp, own index ranges: route-symmetry-params (320 quick / 1500 thorough) and route-translate-params (160 / 800): EVERY public RoutingParameter "
+        "After these and the class cmp, own index ranges: route-symmetry-params (1000 quick / 4000 thorough) and route-translate-params (300 / 1500): EVERY public RoutingParameter "
         "(segment, angle, crossing, clusterCrossing, fixedSharedPath, portDirection penalties, shapeBufferDistance 0..4, idealNudgingDistance, reverseDirectionPenalty 1/2..500; dyadic values) "
         "non-default with probability 1/3..2/3 each, every RoutingOption flipped with probability 1/3; obstacles = rectangles and bars with arms (L/U/T/S pockets, overlapping pieces) in a random "
         "one of 8 orientations; connector ends exactly aligned on one axis, across an obstacle from each other, on (buffered) shape-edge lines, shared between connectors. "
